@@ -56,13 +56,12 @@ def declaredKeys (row : Row) : List Bytes → List Bytes → List Bytes
     if (lookup c row).isSome && !seen.contains c then c :: declaredKeys row (c :: seen) cs
     else declaredKeys row seen cs
 
-/-- Go: rowKeys (fix search/01).  `row` is given in the order in which `for k := range row` visits it. -/
+/-- Go: rowKeys (fix search/01).  `row` is given in the order in which `for k := range row` visits it;
+`!seen[k]` = "k is not among the keys collected so far". -/
 def rowKeys (columns : List Bytes) (row : Row) : List Bytes :=
   let keys := declaredKeys row [] columns
-  if keys.length < row.length then
-    let rest := (row.map (·.1)).filter fun k => !keys.contains k
-    keys ++ rest.mergeSort bytesLe
-  else keys
+  let rest := (row.map (·.1)).filter fun k => !keys.contains k
+  keys ++ rest.mergeSort bytesLe
 
 /-- a loop whose body may `return` from the function: the body gets the matches so far and yields the new
 matches and whether it returned -/
@@ -103,7 +102,27 @@ def searchInDump (R : Regex) (sh : GoVal → Bytes) (d : Dump) (o : Opts) : Opti
   | none => none                                     -- "invalid pattern: …"
   | some re => some (loopM (dbBody re sh o) d []).1
 
+/-- Go: Search.  Its loops are the same four loops as SearchInDump's (textually duplicated in search.go; both patched
+by fix search/01).  `opts = none` is the nil pointer; `dumped` is the result of `DumpDataDir(dataDir,
+&Options{SkipSystemTables: true})` — the directory walk is out of scope here (area cluster), `none` = its error.
+The pattern is compiled first, so an invalid pattern is reported without touching the directory. -/
+def search (R : Regex) (sh : GoVal → Bytes) (dumped : Option Dump) (opts : Option Opts) : Option (List SearchResult) :=
+  match opts with
+  | none => none                                     -- "search options required"
+  | some o =>
+    let pattern := if !o.caseSensitive then ciPrefix ++ o.pattern else o.pattern
+    match R.compile pattern with
+    | none => none                                   -- "invalid pattern: …"
+    | some re =>
+      match dumped with
+      | none => none                                 -- DumpDataDir failed
+      | some d => some (loopM (dbBody re sh o) d []).1
+
 def toHit (r : SearchResult) : Hit :=
   { db := r.database, table := r.table, row := r.rowNum, col := r.column, value := r.value, fullRow := r.row }
+
+/-- the hits of SearchInDump as abstract hits (`none` = the error return) -/
+def hits (R : Regex) (sh : GoVal → Bytes) (d : Dump) (o : Opts) : Option (List Hit) :=
+  (searchInDump R sh d o).map (·.map toHit)
 
 end PgVerif.Model.Search
